@@ -8,7 +8,7 @@ import Mathlib.Algebra.Order.Ring.Rat
 # C02 base lemmas: evaluation, label support and zero-freeness of the total boolean arithmetic
 (`Qv.Model.BoolArith`), soundness of `puboExtrema`, and the field projections of the `St` helpers.
 -/
-namespace Qv
+namespace Qv.PcboP
 
 /-! ## evaluation of the `BoolArith` operators on boolean assignments -/
 
@@ -354,4 +354,4 @@ theorem popLast_append (r : Rel) (l : List (Rel × Poly)) (p : Poly) : popLast r
   | nil => simp [popLast]
   | cons c t ih => simp [popLast, ih]
 
-end Qv
+end Qv.PcboP
